@@ -11,7 +11,7 @@ use crate::zalsa::verif::any_zalsa;
 use crate::{Durability, Revision};
 use std::ptr::NonNull;
 
-// @verif prop=C01,C02,C03,C05 obl=O7 tier=thorough bounds="one memo of VFn attached to a page-backed struct; symbolic runtime INV state (< 2^40), memo verified_at <= now, durability, value present or evicted, final or provisional, origin Derived/DerivedUntracked/Assigned (no edges)"
+// @verif prop=C01,C02,C03,C05,C23 obl=O7 tier=thorough bounds="one memo of VFn attached to a page-backed struct; symbolic runtime INV state (< 2^40), memo verified_at <= now, durability, value present or evicted, final or provisional, origin Derived/DerivedUntracked/Assigned (no edges)"
 // @+ encodes="function::IngredientImpl::<VFn>::fetch_hot, IngredientImpl::get_memo_from_table_for, Zalsa::memo_table_for, Table::memos, MemoTableWithTypes::get, MemoHeader::shallow_verify_memo, MemoHeader::may_be_provisional, MemoHeader::update_shallow, IngredientImpl::extend_memo_lifetime"
 /// C01/C02 (soundness): the fetch fast path hands out the memoized value only if it is present, final and still
 /// shallow-valid (verified in this revision, or nothing of its durability changed since it was verified), and then stamps
